@@ -84,10 +84,14 @@ class NpyFileChunkStore(ChunkStore):
     def __init__(self, path, direct_write=False):
         # An undecodable chunk file is as good as missing. Besides ValueError, np.load raises EOFError
         # on an empty file and lets SyntaxError / tokenize.TokenError out of its header parser.
-        super().__init__({IOError: ChunkNotFound, ValueError: ChunkNotFound, EOFError: ChunkNotFound,
+        # (Lacking permission is a problem of the store as a whole and not of a single chunk.)
+        super().__init__({PermissionError: StoreUnavailable,
+                          IOError: ChunkNotFound, ValueError: ChunkNotFound, EOFError: ChunkNotFound,
                           SyntaxError: ChunkNotFound, tokenize.TokenError: ChunkNotFound})
         if not os.path.isdir(path):
             raise StoreUnavailable(f'Directory {path!r} does not exist')
+        if not os.access(path, os.R_OK | os.X_OK):
+            raise StoreUnavailable(f'Directory {path!r} is not readable')
         self.path = path
         self.direct_write = direct_write
         if direct_write and not hasattr(os, 'O_DIRECT'):
